@@ -243,6 +243,17 @@ func (h *Handler) handleProppatch(w http.ResponseWriter, r *http.Request) error 
 	if err := DecodeXMLRequest(r, &update); err != nil {
 		return err
 	}
+	// RFC 4918 section 14.23 and 14.26: remove and set each contain a prop element
+	for _, remove := range update.Remove {
+		if remove.Prop.XMLName.Local == "" {
+			return HTTPErrorf(http.StatusBadRequest, "webdav: remove element without prop in PROPPATCH request")
+		}
+	}
+	for _, set := range update.Set {
+		if set.Prop.XMLName.Local == "" {
+			return HTTPErrorf(http.StatusBadRequest, "webdav: set element without prop in PROPPATCH request")
+		}
+	}
 
 	resp, err := h.Backend.PropPatch(r, &update)
 	if err != nil {
